@@ -239,6 +239,15 @@ def run(ctx):
             jobs.append((ctx.repo, "unpool", D, sig, 2))
             if D == 2:
                 jobs.append((ctx.repo, "unpool", D, sig, 3))
+        if th:
+            # more channels per group, deeper tensor orders for the pooling blocks, D=3 with every pooling signature
+            jobs.append((ctx.repo, "GroupNorm", D, (((0, 0), 4), ((1, 0), 4), ((0, 1), 4), ((1, 1), 4)), 4))
+            jobs.append((ctx.repo, "GroupNorm", D, (((1, 0), 6), ((0, 1), 3)), 3))
+            for sig in ((((2, 1), 1), ((0, 0), 2)), (((1, 0), 2), ((1, 1), 2))):
+                for blk in ("MaxNormPool", "max_pool", "max_pool_cmp", "average_pool", "unpool"):
+                    if blk == "max_pool_cmp" and not any(t == (0, 0) for t, _ in sig):
+                        continue
+                    jobs.append((ctx.repo, blk, D, sig, 2))
     by = {}
     for job, r in ctx.pairs(worker, jobs):
         cfg = r["cfg"]
